@@ -81,6 +81,8 @@ struct Info {
   bool inconclusive = false;    // a cap was hit; counted, never a violation
   std::vector<const char *> labels;  // class labels (string literals)
   std::map<std::string, uint64_t> excluded;  // known-finding key -> instances excluded
+  std::map<std::string, uint64_t> counters;  // free-form additive counters (e.g. windows enumerated, crash points)
+  void count(const char *k, uint64_t n = 1) { counters[k] += n; }
   uint64_t fp = 0xcbf29ce484222325ull;
   bool fp_set = false;
   void label(const char *l) { labels.push_back(l); }
